@@ -53,12 +53,14 @@ theorem close_steps : mgr_manager_Close =
     ["range m.polls", "call poll.Close()", "store m.numLoops", "store m.balance", "store m.polls", "return"] := rfl
 
 /-- `Run`: deferred Close on error (eclose/eclear) · `RPc.load` · return if equal · shrink loop `RPc.close` ·
-grow loop `RPc.open` (error return) / `RPc.go` · `RPc.store` · `RPc.rebal1/2` -/
+grow loop `RPc.open` (on error: `m.polls = polls[:idx]`, the slice filled so far, then the error return – the
+store that hands the pollers opened by this call to the deferred Close, fix of F2) / `RPc.go` · `RPc.store` ·
+`RPc.rebal1/2` -/
 theorem run_steps : mgr_manager_Run =
     ["defer", "call m.Close()",
      "atomic.LoadInt32(&m.numLoops)", "return",
      "for", "call m.polls[idx].Close()", "index m.polls",
-     "for", "call openPoll()", "return", "go poll.Wait",
+     "for", "call openPoll()", "store m.polls", "return", "go poll.Wait",
      "store m.polls",
      "call m.balance.Rebalance(m.polls)", "return"] := rfl
 
